@@ -32,9 +32,8 @@ Qed.
 Lemma ceil_div_lt a b j : (1 <= b)%nat -> (j * b < a)%nat -> (j < ceil_div a b)%nat.
 Proof.
   intros Hb H. unfold ceil_div.
-  apply Nat.div_lt_upper_bound in H as H'; [|lia].
-  assert (Hle : (S j * b <= a + b - 1)%nat) by (cbn [Nat.mul]; lia).
-  apply (Nat.div_le_lower_bound _ b) in Hle; [lia|lia]. 
+  assert (Hle : (b * S j <= a + b - 1)%nat) by (rewrite Nat.mul_succ_r; lia).
+  apply Nat.div_le_lower_bound in Hle; lia.
 Qed.
 
 (* the cut-off at ceil(asz/step) never removes a limb that exists: natural statement *)
